@@ -157,7 +157,7 @@ structure Layer where
   dims : List Nat
   data : Nat
 
-inductive Why where | dims | exists | clash | ufunc | mode | empty | radius
+inductive Why where | dims | exists | clash | ufunc | mode | empty | radius | size0
 deriving Repr, DecidableEq
 
 inductive Err where
@@ -196,8 +196,9 @@ def reservedNames : List String :=
 structure State where
   impl : Impl
   dims : List Nat
-  /-- `new` only: cell capacity, 0 = unbounded (`None` and 0 are both falsy in `add_agent`) -/
-  cap : Nat
+  /-- `new` only: cell capacity; `none` = unbounded (`capacity=None`).  A capacity of 0 is a capacity (repair SC3:
+      `capacity is not None and n >= capacity`): such a cell takes nobody. -/
+  cap : Option Nat
   heap : Nat → Arr
   /-- element type of every array; fixed at allocation (numpy arrays never change their dtype) -/
   adt : Nat → DType
@@ -206,6 +207,12 @@ structure State where
   nLayers : Nat
   /-- the grid's `_mesa_property_layers` / `properties` dict: name ↦ layer object -/
   attached : List (String × Nat)
+  /-- `new` only: the `PropertyDescriptor`s on the grid's cell class (`setattr(self.cell_klass, name,
+      PropertyDescriptor(layer))` / `delattr`): name ↦ the layer object the descriptor holds.  A registry of its own,
+      written by separate statements of `add_property_layer` / `remove_property_layer`; the cell attribute goes through
+      it, `grid.<name>` and `select_cells` through the dict (`C11_descriptors_are_the_layer_dict`: they never differ).
+      (`cell_klass._mesa_properties`, the third registry, is only read by pickling: C19.) -/
+  descr : List (String × Nat)
   /-- references to `layer.data` held by the user: handle ↦ (array, its shape) -/
   handles : List (Nat × (Nat × List Nat))
   /-- placed agents (insertion order) -/
@@ -222,18 +229,27 @@ def upd {α : Type} (f : Nat → α) (i : Nat) (x : α) : Nat → α := fun j =>
 
 /-- Array 0 is the emptiness array in both implementations: the data of the built-in `empty`
     layer (`Grid.__init__`: `create_property_layer("empty", True, bool)`) resp. `_empty_mask`. -/
-def init (impl : Impl) (dims : List Nat) (cap : Nat) : State :=
+def init (impl : Impl) (dims : List Nat) (cap : Option Nat) : State :=
   { impl, dims, cap,
     heap := fun _ _ => 1, adt := fun _ => .bool, next := 1,
     layers := fun _ => ⟨"empty", dims, 0⟩,
     nLayers := if impl = .new then 1 else 0,
     attached := if impl = .new then [("empty", 0)] else [],
+    descr := if impl = .new then [("empty", 0)] else [],
     handles := [], agents := [], inst := [], masks := [], gattrs := [] }
 
 def State.layer? (s : State) (lid : Nat) : Option Layer :=
   if lid < s.nLayers then some (s.layers lid) else none
 
 def State.named? (s : State) (name : String) : Option Nat := s.attached.lookup name
+
+/-- the layer a cell attribute goes to: the descriptor's (new) / the `properties` entry (legacy) -/
+def State.cellLayer? (s : State) (name : String) : Option Nat :=
+  if s.impl = .new then s.descr.lookup name else s.attached.lookup name
+
+/-- `setattr(cell_klass, name, PropertyDescriptor(layer))`: a class attribute is (re)bound -/
+def setDescr (d : List (String × Nat)) (name : String) (lid : Nat) : List (String × Nat) :=
+  (name, lid) :: d.filter (·.1 ≠ name)
 
 /-- the dtype of the array layer `lid` currently points to (`layer.data.dtype`) -/
 def State.dtypeOf (s : State) (lid : Nat) : DType := s.adt (s.layers lid).data
@@ -244,7 +260,9 @@ def State.namedArr? (s : State) (name : String) : Option Arr :=
 
 /-! ### creating, attaching, detaching layers -/
 
-/-- `add_property_layer`: the checks, in the order of the code -/
+/-- `add_property_layer`: the checks, in the order of the code (`hasattr(self.cell_klass, name)`: an attribute of the
+    cell class itself — a `PropertyDescriptor` left on the class would *not* count: read on the class it raises
+    `AttributeError`, which `hasattr` takes for absence) -/
 def attachCheck (s : State) (l : Layer) : Option Why :=
   match s.impl with
   | .new =>
@@ -273,7 +291,8 @@ def attach (s : State) (lid : Nat) : State × Out :=
   | some l =>
     match attachCheck s l with
     | some w => (s, .err (.value w))
-    | none => ({ s with attached := s.attached ++ [(l.name, lid)] }, .ok)
+    | none => ({ s with attached := s.attached ++ [(l.name, lid)],
+                        descr := if s.impl = .new then setDescr s.descr l.name lid else s.descr }, .ok)
 
 /-- `create_property_layer(name, default, dtype)` (legacy: construct with the grid's shape, then add);
     a rejected call leaves no reachable object behind -/
@@ -283,14 +302,16 @@ def create (s : State) (name : String) (dt : DType) (default : Int) : State × O
   | none =>
     ({ s with heap := upd s.heap s.next (fun _ => default), adt := upd s.adt s.next dt, next := s.next + 1,
               layers := upd s.layers s.nLayers ⟨name, s.dims, s.next⟩, nLayers := s.nLayers + 1,
-              attached := s.attached ++ [(name, s.nLayers)] },
+              attached := s.attached ++ [(name, s.nLayers)],
+              descr := if s.impl = .new then setDescr s.descr name s.nLayers else s.descr },
      .id s.nLayers)
 
-/-- `remove_property_layer(name)`: `KeyError` (new) / `ValueError` (legacy) if absent -/
+/-- `remove_property_layer(name)`: `KeyError` (new) / `ValueError` (legacy) if absent; then the dict entry and (new) the
+    descriptor go (`delattr` would raise if the descriptor were missing: `C11_descriptors_are_the_layer_dict` — it never is) -/
 def detach (s : State) (name : String) : State × Out :=
   match s.named? name with
   | none => (s, .err (if s.impl = .new then .key else .value .exists))
-  | some _ => ({ s with attached := s.attached.filter (·.1 ≠ name) }, .ok)
+  | some _ => ({ s with attached := s.attached.filter (·.1 ≠ name), descr := s.descr.filter (·.1 ≠ name) }, .ok)
 
 /-! ### single-cell reads and writes through the two views -/
 
@@ -309,9 +330,10 @@ def layerGet (s : State) (lid : Nat) (c : Coord) : Out :=
   | some l => if !inBounds l.dims c then .err .index else .val (s.heap l.data c)
 
 /-- the write performed by `setattr(cell, name, v)` for a cell of the grid (`new`):
-    through the descriptor if a layer of that name is attached, else into the instance dict -/
+    through the descriptor of that name on the cell class if there is one (`descriptor.layer.data[coordinate] = v`),
+    else into the instance dict -/
 def cellAttrWrite (s : State) (name : String) (c : Coord) (v : Int) : State :=
-  match s.named? name with
+  match s.descr.lookup name with
   | some lid =>
     let l := s.layers lid
     { s with heap := upd s.heap l.data ((s.heap l.data).set c v) }
@@ -338,7 +360,7 @@ def cellGet (s : State) (name : String) (c : Coord) : Out :=
   | .new =>
     if !inBounds s.dims c then .err .index
     else if name ∈ reservedNames then .err .attr
-    else match s.named? name with
+    else match s.descr.lookup name with
       | some lid => .val (s.heap (s.layers lid).data c)
       | none => match s.inst.lookup (name, c) with
         | some v => .val v
@@ -353,14 +375,16 @@ def cellGet (s : State) (name : String) (c : Coord) : Out :=
 /-! ### the same layer object on a second grid -/
 
 /-- `g2 = OrthogonalMooreGrid(layer.dimensions); g2.add_property_layer(layer)`: a second grid of the layer's
-    shape takes the layer exactly when the first would — not under the name of its own built-in `empty` layer,
-    not under a name of the cell class — and its cells then have the attribute too.  `c` is one of its cells. -/
+    shape (no grid has a zero dimension: `ValueError`, a free-standing layer may) takes the layer exactly when the
+    first would — not under the name of its own built-in `empty` layer, not under a name of the cell class — and
+    its cells then have the attribute too.  `c` is one of its cells. -/
 def otherGridCheck (s : State) (lid : Nat) (c : Coord) : Except Err Layer :=
   if s.impl ≠ .new then .error .impl else
   match s.layer? lid with
   | none => .error .noLayer
   | some l =>
-    if l.name = "empty" then .error (.value .exists)
+    if 0 ∈ l.dims then .error (.value .dims)
+    else if l.name = "empty" then .error (.value .exists)
     else if l.name ∈ reservedNames then .error (.value .clash)
     else if !inBounds l.dims c then .error .index
     else .ok l
@@ -383,6 +407,20 @@ def condHolds (cond : Option (Int → Bool)) (x : Int) : Bool :=
   match cond with
   | none => true
   | some p => p x
+
+/-- has layer `lid` an array without entries?  Only a free-standing `PropertyLayer` of the new implementation can
+    (`np.full((0, 2), …)` is accepted; grids and legacy layers refuse a zero dimension). -/
+def State.noEntries (s : State) (lid : Nat) : Bool :=
+  match s.layer? lid with
+  | some l => (cells l.dims).isEmpty
+  | none => false
+
+/-- `np.vectorize(g)(layer.data)` — how `set_cells` / `modify_cells` evaluate a condition and how `modify_cells`
+    applies a Python function — refuses an array without entries (`ValueError: cannot call vectorize on size 0
+    inputs`) before anything is written; `vectorizes` says whether the call gets that far (it has a condition, or
+    its operation is a Python function and not a ufunc) -/
+def vecGuard (s : State) (lid : Nat) (vectorizes : Bool) (k : State × Out) : State × Out :=
+  if vectorizes && s.noEntries lid then (s, .err (.value .size0)) else k
 
 /-- `set_cells(value, condition)`: `np.copyto(data, value[, where=cond(data)])` — in place -/
 def setCells (s : State) (lid : Nat) (v : Int) (cond : Option (Int → Bool)) : State × Out :=
@@ -420,7 +458,8 @@ def setCellsV (s : State) (lid : Nat) (x : Val) (cond : Option (Int → Bool)) :
 /-- `set_cells(arr, condition)` / `grid.set_property(name, arr, condition)` / `layer.data = arr` with an *array*
     value the user holds, of the layer's shape (another shape is a protocol error here: numpy would broadcast
     or raise): `np.copyto(data, arr[, where=cond(data)])` — in place, point-wise `arr[c]` where the old entry
-    satisfies the condition; the array's dtype must be `same_kind`-castable (`TypeError` otherwise) -/
+    satisfies the condition (evaluated by `np.vectorize` first: `ValueError` on a layer without entries); the
+    array's dtype must be `same_kind`-castable (`TypeError` otherwise) -/
 def setFrom (s : State) (lid : Nat) (h : Nat) (cond : Option (Int → Bool)) : State × Out :=
   match s.layer? lid with
   | none => (s, .err .noLayer)
@@ -429,6 +468,7 @@ def setFrom (s : State) (lid : Nat) (h : Nat) (cond : Option (Int → Bool)) : S
     | none => (s, .err .noHandle)
     | some (a, dims) =>
       if dims ≠ l.dims then (s, .err (.value .dims))
+      else if cond.isSome && (cells l.dims).isEmpty then (s, .err (.value .size0))
       else if !sameKind (s.adt a) (s.adt l.data) then (s, .err .type)
       else
         let src := s.heap a
@@ -499,6 +539,11 @@ def grab (s : State) (h : Nat) (lid : Nat) : State × Out :=
   match s.layer? lid with
   | none => (s, .err .noLayer)
   | some l => ({ s with handles := (h, (l.data, l.dims)) :: s.handles }, .ok)
+
+/-- legacy `h = grid.empty_mask`: the property hands out the live `_empty_mask` array (array 0), not a copy — the
+    counterpart of `grab h 0` (`grid.empty.data`) on a cell space -/
+def grabMask (s : State) (h : Nat) : State × Out :=
+  if s.impl = .new then (s, .err .impl) else ({ s with handles := (h, (0, s.dims)) :: s.handles }, .ok)
 
 /-- `PropertyLayer.from_data(name, arr)` (new implementation) for an array the user holds: a layer object
     of the array's shape and dtype (`__init__` with `default_value = arr[0, …, 0]`, `IndexError` for an empty
@@ -597,12 +642,14 @@ def State.isEmptyCell (s : State) (c : Coord) : Bool := s.agents.all (·.2 ≠ c
 def State.others (s : State) (a : Nat) (c : Coord) : Nat :=
   (s.agents.filter fun p => p.2 = c ∧ p.1 ≠ a).length
 
-/-- would `a` be refused by cell `c`?  (`SingleGrid`: occupied; `Cell.add_agent`: `capacity and n >= capacity`) -/
+/-- would `a` be refused by cell `c`?  (`SingleGrid`: occupied; `Cell.add_agent`: `capacity is not None and n >= capacity`) -/
 def State.fullFor (s : State) (a : Nat) (c : Coord) : Bool :=
   match s.impl with
   | .single => s.others a c ≥ 1
   | .multi => false
-  | .new => s.cap ≠ 0 && s.others a c ≥ s.cap
+  | .new => match s.cap with
+    | none => false
+    | some k => decide (s.others a c ≥ k)
 
 /-- the emptiness write done by the code: `cell.empty = v` (new, an ordinary attribute write on the
     cell) / `self._empty_mask[pos] = v` (legacy, array 0, in place) -/
@@ -759,6 +806,8 @@ inductive MaskRef where
   | lit (m : Coord → Bool)
   | saved (k : Nat)
 
+/-- `vec` of `modifyCells` / `modifyU`: the operation is a Python function (applied through `np.vectorize`), not a ufunc;
+    `modifyT` is always the Python-function form -/
 inductive Op where
   | create (name : String) (dt : DType) (default : WVal)
   | newLayer (name : String) (dims : List Nat) (dt : DType) (default : WVal)
@@ -772,12 +821,13 @@ inductive Op where
   | cellGet2 (lid : Nat) (c : Coord)
   | setCells (lid : Nat) (v : WVal) (cond : Option (Int → Bool))
   | setFrom (lid : Nat) (h : Nat) (cond : Option (Int → Bool))
-  | modifyCells (lid : Nat) (f : Option (Int → Int)) (cond : Option (Int → Bool))
+  | modifyCells (lid : Nat) (vec : Bool) (f : Option (Int → Int)) (cond : Option (Int → Bool))
   | modifyT (lid : Nat) (f : Option (Int → Int)) (cond : Option (Int → Bool)) (rd : DType)
-  | modifyU (lid : Nat) (op : UOp) (x : Val) (cond : Option (Int → Bool))
+  | modifyU (lid : Nat) (vec : Bool) (op : UOp) (x : Val) (cond : Option (Int → Bool))
   | modifyCell (lid : Nat) (c : Coord) (f : Option (Int → Int))
   | modifyCellU (lid : Nat) (c : Coord) (op : UOp) (x : Val)
   | grab (h : Nat) (lid : Nat)
+  | grabMask (h : Nat)
   | fromData (name : String) (h : Nat)
   | hget (h : Nat) (c : Coord)
   | hset (h : Nat) (c : Coord) (v : WVal)
@@ -808,7 +858,7 @@ def resolveMasks (s : State) : List MaskRef → Option (List (Coord → Bool))
     under that name; without such a layer (`new`: the instance dict keeps the Python object itself) as is -/
 def State.cellWVal (s : State) (name : String) : WVal → Int
   | .raw v => v
-  | .py x => match s.named? name with
+  | .py x => match s.cellLayer? name with
     | some lid => castTo (s.dtypeOf lid) x
     | none => x.raw
 
@@ -829,15 +879,16 @@ def step (s : State) : Op → State × Out
   | .cellGet n c => (s, cellGet s n c)
   | .cellSet2 l c w => cellSet2 s l c w
   | .cellGet2 l c => (s, cellGet2 s l c)
-  | .setCells l (.raw v) cond => setCells s l v cond
-  | .setCells l (.py x) cond => setCellsV s l x cond
+  | .setCells l (.raw v) cond => vecGuard s l cond.isSome (setCells s l v cond)
+  | .setCells l (.py x) cond => vecGuard s l cond.isSome (setCellsV s l x cond)
   | .setFrom l h cond => setFrom s l h cond
-  | .modifyCells l f cond => modifyCells s l f cond
-  | .modifyT l f cond rd => modifyCellsT s l f cond rd
-  | .modifyU l op x cond => modifyU s l op x cond
+  | .modifyCells l vec f cond => vecGuard s l (cond.isSome || vec) (modifyCells s l f cond)
+  | .modifyT l f cond rd => vecGuard s l true (modifyCellsT s l f cond rd)
+  | .modifyU l vec op x cond => vecGuard s l (cond.isSome || vec) (modifyU s l op x cond)
   | .modifyCell l c f => modifyCell s l c f
   | .modifyCellU l c op x => modifyCellU s l c op x
   | .grab h l => grab s h l
+  | .grabMask h => grabMask s h
   | .fromData n h => fromData s n h
   | .hget h c => (s, hget s h c)
   | .hset h c w => hset s h c (s.handleWVal h w)
@@ -864,6 +915,30 @@ def step (s : State) : Op → State × Out
         match save with
         | none => (s, out)
         | some k => ({ s with masks := (k, m) :: s.masks }, out)
+
+/-! ### outside the op language: re-binding the array of a legacy layer
+
+On the legacy implementation `layer.data` is a plain attribute: `l2.data = <an array>` re-binds it — nothing is copied — so
+`l2.data = l1.data` makes two layer objects share one array (on the new implementation the same statement is
+`set_cells(arr)`, a copy: `Op.setFrom`).  No mesa code does this; it is a transition of the model (the driver's `rebind`
+line, compared with the real objects) but deliberately *not* an `Op`: `Reach` and every theorem over histories speak about
+histories of `Op`s, in which no two layers ever share an array (`C11_layers_never_share_an_array`); what holds once they do
+is `C11_rebound_layers_are_one_value` / `C11_write_frame_by_array`. -/
+
+/-- legacy `layer.data = h` for an array the user holds, of the layer's shape (another shape: protocol error) and not the
+    grid's own `_empty_mask` (array 0: kept out, the grid writes into it): the layer now points to that very array and
+    has its dtype -/
+def rebind (s : State) (lid : Nat) (h : Nat) : State × Out :=
+  if s.impl = .new then (s, .err .impl) else
+  match s.layer? lid with
+  | none => (s, .err .noLayer)
+  | some l =>
+    match s.handles.lookup h with
+    | none => (s, .err .noHandle)
+    | some (a, dims) =>
+      if dims ≠ l.dims then (s, .err (.value .dims))
+      else if a = 0 then (s, .err .impl)
+      else ({ s with layers := upd s.layers lid { l with data := a } }, .ok)
 
 /-- run a history, collecting the outputs -/
 def run (s : State) : List Op → State × List Out
